@@ -104,7 +104,7 @@ func (t *fnType) coq() string {
 	case "sres":
 		return "go_sres " + parenT(t.elem.coq())
 	}
-	return "?"
+	return t.coqExt() // fn_err.go: err, opaque, table
 }
 
 func parenT(s string) string {
@@ -371,6 +371,7 @@ type fnFunc struct {
 	state         int // 0 new, 1 busy, 2 done, 3 lost
 	text          string
 	lostMsg       string
+	pooled        *pooledInfo // fn_stdobj.go: x := pool.Get().(*T); defer pool.Put(x) opens the body: x plays the receiver
 }
 
 type fnExtra struct {
@@ -406,6 +407,7 @@ type fnGen struct {
 	foreignStructs map[*ast.TypeSpec]string // struct types of other packages used here -> their package
 	coqNames       map[*ast.TypeSpec]string // struct types declared inside a function: <function>_<name>
 	basicNamed     map[string]ast.Expr      // type EditOp byte: the underlying type
+	sx             *fnGenX                  // fn_stdobj.go: methods that share their name with a function, global tables
 }
 
 type fnBind struct {
@@ -464,6 +466,7 @@ type fnCtx struct {
 	structBusy   map[string]*fnType
 	viewBase     map[string]*fnVar
 	ptrFields    map[*ast.Object]map[string]*fnVar // read-only pointer parameters: field -> its argument
+	sx           *fnCtxX                           // fn_stdobj.go: local constants, object variables, pooled objects
 }
 
 func (c *fnCtx) lostAt(n ast.Node, format string, args ...any) {
@@ -674,6 +677,9 @@ func (c *fnCtx) goType(e ast.Expr) *fnType {
 			}
 		}
 	}
+	if t := c.goTypeExt(e); t != nil {
+		return t // fn_err.go: error, interface and struct types of the standard library as opaque values
+	}
 	c.lostAt(e, "type %s", src(e))
 	return nil
 }
@@ -722,10 +728,13 @@ func fnGenerate(f *ast.File, specs []string) (string, []string) {
 	if heapSpecs(specs) {
 		return fnHeapGenerate(f, specs) // the heap backend (fn_heap.go)
 	}
+	f, normText := fnNormalize(f, specs) // fn_stdobj.go: switch -> if chain in the listed functions that have a switch
 	g := &fnGen{file: f, funcs: map[string]*fnFunc{}, byCall: map[string]*fnFunc{}, structs: map[string]*ast.TypeSpec{}, consts: pkgConsts(f),
 		ifaces: map[string]*ast.TypeSpec{}, named: map[string]*ast.TypeSpec{}, usedStructs: map[string]bool{}, recordText: map[string]string{}, writes: map[string][]string{},
 		foreign: map[string][]*ast.File{}, coqNames: map[*ast.TypeSpec]string{}, basicNamed: map[string]ast.Expr{},
 		owned: map[string]bool{}, distinct: map[string]bool{}}
+	g.sx = newFnGenX(normText, specs)
+	g.addIotaConsts(f) // fn_err.go: const ( a T = iota; b; c )
 	for _, d := range f.Decls {
 		if gd, ok := d.(*ast.GenDecl); ok && gd.Tok == token.TYPE {
 			for _, s := range gd.Specs {
@@ -797,12 +806,18 @@ func fnGenerate(f *ast.File, specs []string) (string, []string) {
 		if ci := g.constructorOf(fn.decl); ci != nil {
 			fn.ctor, fn.recvVar, fn.recvObj, fn.recvType = ci, ci.v, ci.obj, ci.tname
 		}
+		if pi := g.pooledRecvOf(fn.decl); pi != nil {
+			fn.pooled, fn.recvVar, fn.recvObj, fn.recvType = pi, pi.v, pi.obj, pi.tname
+		}
 		fn.fatFields, fn.reshapes = map[string]bool{}, map[string]bool{}
 		if fn.decl != nil && g.named[fn.recvType] != nil {
 			fn.namedRecv = true
 		}
 		g.order = append(g.order, fn)
 		g.funcs[sp] = fn
+		if g.methodBesideFunc(fn) {
+			continue // fn_stdobj.go: a method and a function of the same name (Scanner.Split, Split): the method is <Recv>_<name>
+		}
 		if _, dup := g.byCall[fn.name]; dup {
 			fn.state = 3
 			fn.lostMsg = "duplicate name " + fn.name
@@ -840,6 +855,7 @@ func fnGenerate(f *ast.File, specs []string) (string, []string) {
 			b.WriteString("\n")
 		}
 	}
+	b.WriteString(g.sx.globalText()) // fn_stdobj.go: package-level tables as constants
 	for _, t := range emitted {
 		b.WriteString(t)
 		b.WriteString("\n")
@@ -914,6 +930,9 @@ func (g *fnGen) calleeOf(fn *fnFunc, call *ast.CallExpr) *fnFunc {
 		}
 	case *ast.SelectorExpr:
 		if id, ok := f.X.(*ast.Ident); ok && fn.recvVar != "" && id.Name == fn.recvVar && !fn.namedRecv {
+			if cal := g.sx.byMethod[fn.recvType+"."+f.Sel.Name]; cal != nil {
+				return cal // a method that shares its name with a function of the file
+			}
 			if cal, ok := g.byCall[f.Sel.Name]; ok && cal.recv != "" && cal.recv == fn.recvType {
 				return cal
 			}
